@@ -14,6 +14,11 @@ pub const ENV_PROTOCOL: u32 = 2;
 /// like ENV_WAKE_SCRIPT, but triggered by the first yield / lock / condition wait / wait-strategy call
 pub const ENV_WAKE_ON_ANY: u32 = 3;
 
+/// FutWait::park harness (mode 102): publish the awaited count exactly when the list lock is taken
+pub static mut FW_FLIP_AT_LOCK: bool = false;
+pub static mut FW_CELL: usize = 0;
+pub static mut FW_SEQ: usize = 0;
+
 pub static mut ENV_Q: usize = 0; // address of the MultiQueue under test
 pub static mut ENV_MPMC: bool = false;
 pub static mut ENV_N: usize = 0;
@@ -55,6 +60,16 @@ impl EnvDispatch for TheEnv {
                     } else {
                         env_protocol::<BCast<Pay>>(ENV_Q as *const MultiQueue<BCast<Pay>, Pay>, kind, addr);
                     }
+                }
+                102 => {
+                    // FutWait::park harness: the awaited value is published exactly when the list lock is taken
+                    if kind == K_LOCK && FW_FLIP_AT_LOCK {
+                        (*(FW_CELL as *const AtomicUsize)).poke(FW_SEQ);
+                    }
+                }
+                100 | 101 => {
+                    // wait-strategy harnesses (wait.rs contracts): count pauses, release the waiter
+                    crate::wait::BusyWait::vf_pause(kind, addr);
                 }
                 _ => {}
             }
